@@ -40,7 +40,9 @@
   identifies a type (AttemptToRedefine), and `Equals` compares names first.
 
   Go runtime faults / raised issues are explicit: every function that can raise in Go answers `Except Code _`.
-  Attribute types are a small alphabet with a decidable instance test (`inst`); nothing in this file depends on which.
+  Attribute types are a small alphabet (Integer, String, Boolean, Float, Any, Undef, Optional[T], NotUndef[T],
+  Variant[A,B], Array[T]) with a decidable instance test (`inst`), the assignability the override check uses (`asg`) and
+  the rewriting of the named constructor's init Struct (`tyInit`); nothing else in this file depends on which.
   Not modelled (outside the universe the driver accepts): functions, type parameters, annotations, a hash literal with a
   repeated key, an `undef` given through `constants => {}` (its inferred type `Undef` is not in the alphabet).
   Core-only file (linked into the driver).
@@ -52,33 +54,96 @@ inductive Val where
   /-- a hash standing where an attribute value is expected (the argument of a named construction that did not match the
       named signature and fell through to the positional one); opaque, identified by its canonical text -/
   | hash (canon : String)
+  /-- a Float, as a number of quarters (the universe of the driver holds exact dyadic values only) -/
+  | float (quarters : Int)
+  /-- an Array: the empty one, and an element in front of an array (`acons h t` with `t` not an array is no value of the
+      universe; no type of the alphabet but `Any` accepts it) -/
+  | anil | acons (h t : Val)
   deriving DecidableEq, Repr, Inhabited
 
 inductive Ty where
   | int | str | bool | any | opt (t : Ty)
+  | float | undefT | notUndef (t : Ty) | variant (a b : Ty) | array (t : Ty)
   deriving DecidableEq, Repr, Inhabited
 
+/-- an array all of whose elements satisfy `p` -/
+def allElems (p : Val → Bool) : Val → Bool
+  | .anil => true
+  | .acons h t => p h && allElems p t
+  | _ => false
+
+/-- IsInstance on the alphabet.  `Array[T]` (unbounded size) walks the elements. -/
 def inst : Ty → Val → Bool
   | .int, .int _ => true
   | .str, .str _ => true
   | .bool, .bool _ => true
+  | .float, .float _ => true
+  | .undefT, .undef => true
   | .any, _ => true
   | .opt t, v => v == .undef || inst t v
+  | .notUndef t, v => v != .undef && inst t v
+  | .variant a b, v => inst a v || inst b v
+  | .array t, v => allElems (inst t) v
   | _, _ => false
 
 def stripOpt : Ty → Ty
   | .opt u => stripOpt u
   | u => u
 
-/-- IsAssignable on the alphabet (after the fix "Optional[T] … accepts T and Undef only"): `Optional[T]` accepts `U`,
-    `Optional[U]`, `Optional[Optional[U]]` … iff `T` accepts `U`.  Used by assertCanBeOverridden. -/
-def asg : Ty → Ty → Bool
-  | .any, _ => true
-  | .opt t, u => asg t (stripOpt u)
-  | .int, .int => true
-  | .str, .str => true
-  | .bool, .bool => true
-  | _, _ => false
+def Ty.size : Ty → Nat
+  | .opt t => t.size + 1
+  | .notUndef t => t.size + 1
+  | .variant a b => a.size + b.size + 1
+  | .array t => t.size + 1
+  | _ => 1
+
+/-- types.go GuardedIsAssignable(a, b) with the `IsAssignable` methods of the types of the alphabet inlined, on fuel
+    (every call is on a pair of smaller total size; `asg` gives enough):
+      a == Any                                   → true
+      b = NotUndef[nt], nt rejects Undef         → a accepts nt
+      b = Optional[ot]                           → a accepts Undef and a accepts ot
+      b = Variant[x, y]                          → a accepts x and a accepts y
+      otherwise a.IsAssignable(b):
+        Integer/String/Boolean/Float/Undef       → b is the same type
+        Optional[t]                              → Undef accepts b, or t accepts b
+        NotUndef[t],  b = NotUndef[u]            → t accepts u, or t accepts b
+        NotUndef[t],  other b                    → b rejects Undef and t accepts b
+        Variant[x, y]                            → x accepts b or y accepts b
+        Array[t],     b = Array[u]               → t accepts u          (sizes are unbounded in the alphabet) -/
+def asgF : Nat → Ty → Ty → Bool
+  | 0, _, _ => false
+  | n + 1, a, b =>
+    if a == .any then true else
+    let self : Bool :=
+      match a, b with
+      | .int, .int => true
+      | .str, .str => true
+      | .bool, .bool => true
+      | .float, .float => true
+      | .undefT, .undefT => true
+      | .opt t, b => asgF n .undefT b || asgF n t b
+      | .notUndef t, .notUndef u => asgF n t u || asgF n t (.notUndef u)
+      | .notUndef t, b => !asgF n b .undefT && asgF n t b
+      | .variant x y, b => asgF n x b || asgF n y b
+      | .array t, .array u => asgF n t u
+      | _, _ => false
+    match b with
+    | .notUndef nt => if !asgF n nt .undefT then asgF n a nt else self
+    | .opt ot => if asgF n a .undefT then asgF n a ot else false
+    | .variant x y => asgF n a x && asgF n a y
+    | _ => self
+
+/-- IsAssignable on the alphabet.  Used by assertCanBeOverridden. -/
+def asg (a b : Ty) : Bool := asgF (a.size + b.size + 1) a b
+
+/-- objecttype.go typeAndInit on the alphabet: the type the NAMED constructor's init Struct gives an attribute of type `t`.
+    `NotUndef[T]` becomes `Optional[T]` there (so the named constructor admits undef for it; the positional one does not). -/
+def tyInit : Ty → Ty
+  | .opt t => .opt (tyInit t)
+  | .notUndef t => .opt (tyInit t)
+  | .variant a b => .variant (tyInit a) (tyInit b)
+  | .array t => .array (tyInit t)
+  | t => t
 
 inductive Kind where
   | normal | constant | derived | givenOrDerived | reference
@@ -308,7 +373,8 @@ def tyOfVal : Val → Ty
   | .int _ => .int
   | .str _ => .str
   | .bool _ => .bool
-  | _ => .any      -- undef / a hash: not accepted by the driver as a constant
+  | .float _ => .float
+  | _ => .any      -- undef / a hash / an array: not accepted by the driver as a constant
 
 /-- InitFromHash, constants loop: the attribute specification a `constants` entry stands for — the type inferred from the
     value, kind constant, and `override` set exactly when the parent has a member of that name -/
@@ -399,10 +465,11 @@ def posMatches (ai : AttrInfo) (vs : List Val) : Bool :=
   decide (ai.required ≤ vs.length) && allInst ai.attrs vs
 
 /-- named dispatcher: the hash is an instance of the init Struct (every key a positional attribute with a value of its
-    type, every attribute that is not optional present).  Keys are distinct (a hash). -/
+    type AS createInitType WRITES IT — `typeAndInit`, `tyInit` —, every attribute that is not optional present).  Keys are
+    distinct (a hash). -/
 def namedMatches (ai : AttrInfo) (es : List (String × Val)) : Bool :=
   es.all (fun e => match ai.attrs.find? (fun a => a.name == e.1) with
-    | some a => inst a.ty e.2
+    | some a => inst (tyInit a.ty) e.2
     | none => false) &&
   ai.attrs.all (fun a => a.optional || (es.lookup a.name).isSome)
 
